@@ -96,6 +96,7 @@ def run(rep):
     run_bounds(rep, fns)
     palette_indices(rep, fns)
     mask_shifts(rep, fns)
+    eof_progress(rep, fns)
     from .p06 import accept_inconclusive
     accept_inconclusive(rep, "c11_inconclusive.json")
 
@@ -646,3 +647,74 @@ def mask_shifts(rep, fns):
         else:
             rep.violation("R2b-mask-shift", key, "%s:%s" % (file, line), {"problem": "a shift by a file-derived amount that the mask validation does not cover"})
     rep.floor("obligations:R2b", 8)
+
+
+def eof_progress(rep, fns):
+    rep.rule("R6a both input devices' getc() raise io_error when the underlying get returns EOF (the comment/number skipping loops of the PNM parser rely on it to terminate)")
+    rep.rule("R6b every loop that consumes input with getc_unchecked() compares the value with EOF on a path that leaves the loop")
+    seen = set()
+    for f in fns:
+        m = re.match(r"boost::gil::detail::(file_stream_device|istream_device)::getc$", f["name"])
+        if not m or m.group(1) in seen:
+            continue
+        seen.add(m.group(1))
+        rep.count("obligations:R6")
+        ok = False
+        for c, _ in R.calls_in(f["body"], lambda n: n.endswith("io_error_if")):
+            k = R.key(c["args"][0])
+            if re.search(r"\(\(ch = .*(getc|get)\(.*\)\) == -1\)", k) or re.search(r"== -1", k) and "ch" in k and ("get(" in k or "getc(" in k):
+                ok = True
+        for c, p in R.calls_in(f["body"], lambda n: n.endswith("io_error")):
+            if any(r in ("-1",) or l in ("-1",) for op, l, r in R.guards(p)):
+                ok = True
+        rets = [R.key(x["e"]) for x, _ in R.find(f["body"], lambda x: x.get("k") == "Return" and x.get("e") is not None)]
+        key = "R6a:%s::getc" % m.group(1)
+        if ok and rets == ["ch"]:
+            rep.ok("R6-eof", key, "EOF -> io_error")
+        else:
+            rep.violation("R6-eof", key, "%s:%s" % (rel(f), f["line"]), {"returns": rets, "eof_check_found": ok,
+                                                                       "problem": "at end of input getc() returns (char)EOF instead of raising: `do ch = getc(); while (ch != '\\n')` in the PNM header parser never terminates on a file that ends inside a comment"})
+    if len(seen) < 2:
+        rep.fail_analysis("R6a: getc() of %s not instantiated" % sorted({"file_stream_device", "istream_device"} - seen))
+    done = set()
+    for f in fns:
+        if f.get("body") is None:
+            continue
+        for lp, _ in R.find(f["body"], lambda x: x.get("k") in ("For", "While", "Do")):
+            gets = [c for c, _ in R.find(lp.get("body"), lambda x: x.get("k") == "Call" and (x.get("callee") or {}).get("name", "").endswith("getc_unchecked"))]
+            if not gets:
+                continue
+            inner = [x for x, _ in R.find(lp.get("body"), lambda x: x.get("k") in ("For", "While", "Do")) if R.find(x, lambda y: y.get("k") == "Call" and (y.get("callee") or {}).get("name", "").endswith("getc_unchecked"))]
+            if inner:
+                continue        # judged at the innermost loop
+            key = "R6b:%s:%s::%s:line%s" % (fmt_of(f), f["name"].split("::")[-2], f["name"].split("::")[-1], "")
+            key = key.rstrip(":line")
+            if key in done:
+                continue
+            done.add(key)
+            rep.count("obligations:R6")
+            ok = False
+            for x, p in R.find(lp.get("body"), lambda x: x.get("k") in ("Return", "Break", "Throw") or (x.get("k") == "Call" and (x.get("callee") or {}).get("name", "").endswith("io_error"))):
+                gs = R.guards(p)
+                if any((r == "-1" or l == "-1") and op in ("==",) for op, l, r in gs):
+                    ok = True
+                # `if (ch == EOF || ...) return;` : EOF is one disjunct of the condition that guards the exit
+                for anc, field, idx in p:
+                    if anc.get("k") == "If" and field == "then":
+                        def disj(n, out):
+                            n = R.strip(n)
+                            while n is not None and n.get("k") == "Paren":
+                                n = R.strip(n["e"])
+                            if n is not None and n.get("k") == "Binary" and n.get("op") == "||":
+                                disj(n["l"], out); disj(n["r"], out)
+                            elif n is not None:
+                                out.append(n)
+                            return out
+                        for dn in disj(anc["cond"], []):
+                            if dn.get("k") == "Binary" and dn.get("op") == "==" and "-1" in (R.key(dn["l"]), R.key(dn["r"])):
+                                ok = True
+            if ok:
+                rep.ok("R6-eof", key, "EOF leaves the loop")
+            else:
+                rep.violation("R6-eof", key, "%s:%s" % (rel(f), lp.get("line")), {"problem": "the loop reads with getc_unchecked() and has no exit taken on EOF: it does not terminate on truncated input"})
+    rep.floor("obligations:R6", 4)
